@@ -89,7 +89,7 @@ theorem runAux_rows (tps : Array (Array Int)) (sf ef : Array Int) : ∀ (l : Lis
   | x :: l, s, f, rows, rn => by
     simp only [runAux]
     obtain ⟨Y, h⟩ := runAux_rows tps sf ef l (step tps sf ef x (f : Int) s).1 (f + 1)
-      (rows ++ [(step tps sf ef x (f : Int) s).2]) (rn || decide (s.best - 0x300000 < worst))
+      (rows ++ [(step tps sf ef x (f : Int) s).2]) (rn || decide (renormDue s.best))
     exact ⟨(step tps sf ef x (f : Int) s).2 :: Y, by rw [h]; simp⟩
 
 /-- the search after the first `f` frames -/
